@@ -4,6 +4,7 @@ import (
 	"encoding/json"
 	"fmt"
 	"regexp"
+	"strings"
 	"time"
 
 	rt "verif.local/rt"
@@ -194,7 +195,29 @@ func genC15(seed uint64) *Scenario {
 			p := pick(r, pats)
 			s := pick(r, c15Subjects)
 			op := Op{UID: uid, Pattern: p, Str: s, OrderSeed: orderSeedFor(r)}
-			switch x := r.Intn(10); {
+			switch x := r.Intn(12); {
+			case x >= 10:
+				// the same pattern through the simple-schema entry points: a parameter, a header, or the items of an array parameter
+				switch r.Intn(3) {
+				case 0:
+					op.Kind, op.Role = KParam, "param-pattern"
+					op.Schema = js(M{"name": "p", "in": "query", "type": "string", "pattern": p})
+					op.TVal = &TypedVal{T: "string", J: js(s)}
+				case 1:
+					op.Kind, op.Role, op.Path = KHeader, "header-pattern", "X-P"
+					op.Schema = js(M{"type": "string", "pattern": p})
+					op.TVal = &TypedVal{T: "string", J: js(s)}
+				default:
+					op.Kind, op.Role = KParam, "items-pattern"
+					op.Schema = js(M{"name": "p", "in": "query", "type": "array", "items": M{"type": "string", "pattern": p}})
+					op.TVal = &TypedVal{T: "[]string", J: js([]string{s})}
+				}
+				op.Recycle = r.Chance(600)
+				if s == "" {
+					// (the empty string takes the required / allowEmptyValue path of the simple validators, not the pattern)
+					op.Str = "k"
+					op.TVal.J = strings.Replace(op.TVal.J, `""`, `"k"`, 1)
+				}
 			case x < 5:
 				op.Kind = KPattern
 				op.Path = "p"
